@@ -376,6 +376,8 @@ def decorate_scenario(rng, sc, opts):
                     gt = rng.choice(["./.", "0/.", "."])
                 elif pre == "PS" and "PS" in fmt and a != b and rng.random() < 0.7:
                     gt = rng.choice([f"{a}|{b}", f"{b}|{a}"])
+                elif a == b and r < 0.16:
+                    gt = "0/1"                                # wrong call: the reads show a homozygous site
                 elif r < 0.25:
                     gt = f"{max(a, b)}/{min(a, b)}"          # 1/0 order
                 else:
